@@ -57,12 +57,24 @@ def build_obj(expr, P):
     raise ValueError(expr)
 
 
+_OBJ_CACHE = {}
+
+
+def reused_obj(expr, P):
+    """one transformer object per expression for the whole run: a pass must not carry state from one circuit to
+    the next (the same object applied to many circuits is ordinary use), so objects are deliberately re-used"""
+    key = repr(expr)
+    if key not in _OBJ_CACHE:
+        _OBJ_CACHE[key] = build_obj(expr, P)
+    return _OBJ_CACHE[key]
+
+
 def apply_expr(expr, c, P):
     if isinstance(expr, str):
-        return P[expr]().transform(c)
+        return reused_obj(expr, P).transform(c)
     k = expr[0]
     if k in ('pipe', 'comp'):
-        return build_obj(expr, P).transform(c)
+        return reused_obj(expr, P).transform(c)
     if k == 'list':
         return P['Transformer'].apply_transformers(c, [build_obj(e, P) for e in expr[1]])
     if k == 'applycomp':
